@@ -75,6 +75,8 @@ type batchObs struct {
 	Err    string   `json:"err,omitempty"`
 	Res    []resObs `json:"res,omitempty"`
 	Digest uint64   `json:"digest"`
+	// Applied is the durable applied index of the slot after the call.
+	Applied uint64 `json:"applied"`
 }
 
 func (b batchObs) coq() string {
@@ -84,7 +86,7 @@ func (b batchObs) coq() string {
 	} else {
 		out = vh.App("BOk", vh.ListOf(b.Res, func(r resObs) string { return vh.Pair(vh.N(r.Cls), vh.N(r.H)) }))
 	}
-	return vh.Pair(out, vh.N(b.Digest))
+	return vh.App("BObs", out, vh.N(b.Digest), vh.N(b.Applied))
 }
 
 func (w *world) applyObs(cmds []multiraft.Command) batchObs {
@@ -101,7 +103,54 @@ func (w *world) applyObs(cmds []multiraft.Command) batchObs {
 		}
 	}
 	o.Digest = w.digest()
+	o.Applied = w.appliedIndex()
+	if debugRaw != nil {
+		debugRaw[o.Digest] = w.rawRows()
+	}
 	return o
+}
+
+// debugRaw (VERIF_C13_DEBUG): raw rows behind every digest seen, to show what differs.
+var debugRaw map[uint64][]string
+
+func (w *world) rawRows() []string {
+	var out []string
+	for _, hs := range w.allHS {
+		rows, err := metadb.VerifC13RawRows(w.db, hs)
+		if err != nil {
+			panic(err)
+		}
+		for _, kv := range rows {
+			out = append(out, fmt.Sprintf("%x = %x", kv[0], kv[1]))
+		}
+	}
+	out = append(out, fmt.Sprintf("applied_index = %d", w.appliedIndex()))
+	return out
+}
+
+func rawDiff(a, b uint64) string {
+	if debugRaw == nil {
+		return ""
+	}
+	ra, rb := map[string]bool{}, map[string]bool{}
+	for _, x := range debugRaw[a] {
+		ra[x] = true
+	}
+	for _, x := range debugRaw[b] {
+		rb[x] = true
+	}
+	var out []string
+	for _, x := range debugRaw[a] {
+		if !rb[x] {
+			out = append(out, "    partition only: "+x)
+		}
+	}
+	for _, x := range debugRaw[b] {
+		if !ra[x] {
+			out = append(out, "    reference only: "+x)
+		}
+	}
+	return "\n" + strings.Join(out, "\n")
 }
 
 // cut splits n log positions by the cyclic size pattern.
@@ -234,29 +283,6 @@ func taskBrief(t metadb.ChannelMigrationTask) string { return fmt.Sprintf("%+v",
 
 func metaBrief(m metadb.ChannelRuntimeMeta) string { return fmt.Sprintf("%+v", m) }
 
-// ---- pre-observation for the known-finding signatures ------------------------------------------
-
-// preStatus: for a channel-migration command with a task guard, 1 + the status
-// of the guarded task before the command (0: no such task); 0 for other commands.
-func (w *world) preStatus(e entry) uint64 {
-	c := e.c
-	if c.K == "delta" && c.Orig != nil {
-		c = *c.Orig
-	}
-	if c.K != "cm" || c.CM == nil || c.CM.G == nil {
-		return 0
-	}
-	g := c.CM.G
-	if !validKey(g.Ch) || !validKey(g.ID) {
-		return 0
-	}
-	t, err := w.db.ForHashSlot(e.cmd.HashSlot).GetChannelMigrationTask(context.Background(), g.Ch, g.Ty, g.ID)
-	if err != nil {
-		return 0
-	}
-	return 1 + uint64(t.Status)
-}
-
 // ---- decode observation ---------------------------------------------------------------------
 
 func coqDecode(data []byte) string {
@@ -329,6 +355,9 @@ func runC13(in input) vh.Result {
 			abandonHandles()
 		}
 	}()
+	if os.Getenv("VERIF_C13_DEBUG") != "" {
+		debugRaw = map[uint64][]string{}
+	}
 	log := buildLog(in.Ops, srcSlot)
 	n := len(log)
 	modelled := true
@@ -344,7 +373,6 @@ func runC13(in input) vh.Result {
 	// reference run: one command per ApplyBatch call
 	w := newSrcWorld(0, in.Cfg, true)
 	d0 := w.digest()
-	dd0 := w.dataDigest()
 	snapAt := map[int]bool{}
 	for _, k := range in.Snap {
 		if k >= 0 && k <= n {
@@ -364,14 +392,11 @@ func runC13(in input) vh.Result {
 		if err != nil {
 			panic(fmt.Sprintf("Snapshot: %v", err))
 		}
-		snaps[k] = snapRec{data: append([]byte(nil), s.Data...), refData: w.dataDigest()}
+		snaps[k] = snapRec{data: append([]byte(nil), s.Data...), refData: w.ownedDigest()}
 	}
-	_ = dd0
 	takeSnap(0)
-	pre := make([]uint64, n)
 	refLen := n // number of log positions the reference run executed without a fatal error
 	for i, e := range log {
-		pre[i] = w.preStatus(e)
 		o := w.applyObs([]multiraft.Command{e.cmd})
 		obs.Ref = append(obs.Ref, o)
 		if o.Fatal != 0 {
@@ -380,15 +405,11 @@ func runC13(in input) vh.Result {
 		}
 		takeSnap(i + 1)
 	}
-	refFinalData := w.dataDigest()
+	refFinalData := w.ownedDigest()
 	refDump, refDumpTxt := "", []string(nil)
 	if modelled {
 		refDump, refDumpTxt = w.dump(keys)
 		obs.Dump = refDumpTxt
-	}
-	refFinal := d0
-	if len(obs.Ref) > 0 {
-		refFinal = obs.Ref[len(obs.Ref)-1].Digest
 	}
 
 	// the other partitions
@@ -418,17 +439,12 @@ func runC13(in input) vh.Result {
 				break
 			}
 		}
-		final := d0
-		if len(po.Batches) > 0 {
-			final = po.Batches[len(po.Batches)-1].Digest
-		}
 		pd := "None"
-		if modelled && final != refFinal {
-			var txt []string
-			var t string
-			t, txt = pw.dump(keys)
-			pd = vh.Some(t)
-			po.Dump = txt
+		if modelled {
+			if t, txt := pw.dump(keys); t != refDump {
+				pd = vh.Some(t)
+				po.Dump = txt
+			}
 		}
 		obs.Parts = append(obs.Parts, po)
 		coqParts = append(coqParts, vh.App("Part", vh.ListOf(sizes, func(s int) string { return vh.N(uint64(s)) }),
@@ -453,13 +469,13 @@ func runC13(in input) vh.Result {
 		if err := rw.raw.Restore(context.Background(), multiraft.Snapshot{Index: uint64(k), Term: 1, Data: rec.data}); err != nil {
 			so.Err = err.Error()
 		} else {
-			so.Restored = rw.dataDigest()
+			so.Restored = rw.ownedDigest()
 			for i := k; i < n; i++ {
 				if _, err := rw.applyRaw([]multiraft.Command{log[i].cmd}); err != nil {
 					break
 				}
 			}
-			so.Final = rw.dataDigest()
+			so.Final = rw.ownedDigest()
 		}
 		obs.Snaps = append(obs.Snaps, so)
 		coqSnaps = append(coqSnaps, vh.App("SnapObs", vh.N(uint64(k)), vh.B(so.Err == ""), vh.N(so.RefData), vh.N(so.Restored), vh.N(so.RefFinal), vh.N(so.Final)))
@@ -480,14 +496,14 @@ func runC13(in input) vh.Result {
 		case "raw", "delta", "fence", "ack", "cleanup":
 			dec = vh.Some(vh.Pair(vh.Hex(e.data), coqDecode(e.data)))
 		}
-		entries[i] = vh.App("Entry", vh.B(!e.c.BadSlot), vh.N(uint64(e.cmd.HashSlot)), e.c.coq(), data, vh.N(pre[i]), dec)
+		entries[i] = vh.App("Entry", vh.B(!e.c.BadSlot), vh.N(uint64(e.cmd.HashSlot)), e.c.coq(), data, dec)
 	}
 	dumpT := "None"
 	if modelled {
 		dumpT = vh.Some(refDump)
 	}
 	coq := vh.App("C13Case", coqCfg(in.Cfg), vh.B(modelled), vh.List(entries), vh.N(d0), vh.ListOf(obs.Ref, batchObs.coq),
-		vh.List(coqParts), vh.List(coqSnaps), dumpT, vh.ListOf(keys, coqChan))
+		vh.List(coqParts), vh.List(coqSnaps), dumpT)
 
 	class := in.Prof
 	if class == "" {
@@ -580,7 +596,18 @@ func diffPartition(log []entry, ref []batchObs, d0 uint64, po partObs) []string 
 			}
 		}
 		if b.Digest != digestAt(pos+s) {
-			out = append(out, fmt.Sprintf("sizes %v batch %d [%s]: state after the batch differs from the reference state after %d commands", po.Sizes, bi, kinds(), pos+s))
+			out = append(out, fmt.Sprintf("sizes %v batch %d [%s]: state after the batch differs from the reference state after %d commands%s", po.Sizes, bi, kinds(), pos+s, rawDiff(b.Digest, digestAt(pos+s))))
+		}
+		// the durable applied index may lag behind the batch end only over commands without effect
+		end := uint64(pos + s)
+		if b.Applied > end {
+			out = append(out, fmt.Sprintf("sizes %v batch %d [%s]: applied index %d beyond the batch end %d", po.Sizes, bi, kinds(), b.Applied, end))
+		}
+		for j := int(b.Applied); j < pos+s && j < len(ref); j++ {
+			if j >= 0 && ref[j].Fatal == 0 && ref[j].Res[0].Cls != 1 {
+				out = append(out, fmt.Sprintf("sizes %v batch %d [%s]: applied index %d lags behind command %d whose reference result is not stale_meta", po.Sizes, bi, kinds(), b.Applied, j))
+				break
+			}
 		}
 		if len(out) > 0 {
 			return out
